@@ -29,6 +29,7 @@ REQUIRED = [
     "wrongArgCount_exact", "missing_exact", "keyword_error_iff", "err_kind_not_always_same",
     "method_bind", "method_bind_posonly",
     "bound_outcome_same_not_full", "bound_same_not_full", "bound_outcome_same_partial", "bound_same_partial",
+    "kw_register_spec", "kw_register_overwritten",
 ]
 
 KINDS = ["func", "method", "classmethod", "staticmethod", "init"]
@@ -669,11 +670,116 @@ def _k2_init():
   common.load_pytype()
 
 
+KW_TRACE = []
+
+
+def install_kw_trace():
+  """Records, in execution order, every KW_NAMES instruction and every entry of call_function_from_stack_311 (with the
+  split it made) of the real VM — by wrapping the three methods in this process; /repo is not touched."""
+  from pytype import vm as V  # pylint: disable=g-import-not-at-top
+  cls = V.VirtualMachine
+  if getattr(cls, "_verif_kw_traced", False):
+    return
+  o_kw, o_311, o_h = cls.byte_KW_NAMES, cls.call_function_from_stack_311, cls._call_function_from_stack_helper
+
+  def kw(self, state, op):
+    KW_TRACE.append(("k", tuple(op.argval)))
+    return o_kw(self, state, op)
+
+  def c311(self, state, num):
+    self._verif_311 = True
+    try:
+      return o_311(self, state, num)
+    finally:
+      self._verif_311 = False
+
+  def helper(self, state, funcv, posargs, namedargs, starargs, starstarargs):
+    if getattr(self, "_verif_311", False):
+      self._verif_311 = False
+      KW_TRACE.append(("c", len(posargs), tuple(namedargs)))
+    return o_h(self, state, funcv, posargs, namedargs, starargs, starstarargs)
+
+  cls.byte_KW_NAMES, cls.call_function_from_stack_311, cls._call_function_from_stack_helper = kw, c311, helper
+  cls._verif_kw_traced = True
+
+
+def kw_trace_line(trace):
+  return "kw " + " ".join("k:" + ",".join(e[1]) if e[0] == "k" else "c:%d" % (e[1] + len(e[2])) for e in trace)
+
+
+def kw_trace_check(drv, traces, res):
+  """the recorded traces against the Lean model of the pending-names register (Sem/KwReg.lean): every call must have
+  split its operands as `run [] trace` says"""
+  dis = []
+  st = {"traces": len(traces), "events": 0, "kw_names": 0, "calls": 0, "keyword_calls": 0,
+        "positional_calls_right_after_a_keyword_call": 0, "not_well_paired": 0}
+  answers = drv.batch([kw_trace_line(t) for t in traces]) if traces else []
+  for t, a in zip(traces, answers):
+    st["events"] += len(t)
+    calls = [e for e in t if e[0] == "c"]
+    st["kw_names"] += len(t) - len(calls)
+    st["calls"] += len(calls)
+    st["keyword_calls"] += sum(1 for e in calls if e[2])
+    st["positional_calls_right_after_a_keyword_call"] += sum(
+        1 for a_, b_ in zip(t, t[1:]) if a_[0] == "c" and a_[2] and b_[0] == "c" and not b_[2])
+    wp, _, body = a.partition(" ")
+    if wp != "1":
+      st["not_well_paired"] += 1
+      continue
+    model = [x.split(":") for x in body.split("|")] if body else []
+    for i, (e, m) in enumerate(zip(calls, model)):
+      real = [str(e[1]), ",".join(e[2])]
+      if real != m:
+        dis.append({"stage": "K3-kw-register", "what": "call %d of the trace split its operands as %r, the model of the "
+                    "pending-names register says %r" % (i, real, m),
+                    "trace_prefix": kw_trace_line(t[:t.index(e) + 1])[-600:]})
+        break
+  res.cov["kw_register"] = st
+  return dis
+
+
+def kw_extra_sources():
+  """programs whose callees themselves make calls (positional and keyword) while a keyword call is in progress: the
+  keyword-call and cooperative-__init__ families of C14 as whole modules, plus comprehension / lambda / decorator /
+  recursion shapes"""
+  from harness import c14  # pylint: disable=g-import-not-at-top
+  out = []
+  for pre, st in c14.sequence_family():
+    if "kf(" in pre or "super().__init__" in pre:
+      out.append(pre + "\n".join(st) + "\n")
+  out.append(
+      "def inner(a, b=0, *c, **d):\n  return str(a) + repr(b)\n"
+      "def outer(x, y=1, **kw):\n  return inner(x, b=y) + inner(a=len(str(x)), **kw) + str(sorted([y], key=abs))\n"
+      "def deco(f):\n  def w(*a, **k):\n    return f(*a, **k)\n  return w\n"
+      "@deco\ndef dec(p, q=2):\n  return max(p, q, key=lambda v: abs(v))\n"
+      "r1 = outer(1, y=2)\nr2 = outer(x=3, z=inner(4, b=5))\nr3 = [outer(i, y=i) for i in (1, 2)]\n"
+      "r4 = dec(1, q=inner(2, b=3).count('2'))\nr5 = (lambda t, u=0: outer(t, y=u))(7, u=8)\n"
+      "def rec(n, acc=()):\n  return acc if n <= 0 else rec(n - 1, acc=acc + (n,))\nr6 = rec(2, acc=())\n"
+      "class C:\n  def __init__(self, v, w=None):\n    self.v = outer(v, y=len(str(w)))\n"
+      "  def m(self, k, *, z=0):\n    return inner(k, b=z, extra=self.v)\n"
+      "r7 = C(1, w='s').m(2, z=3)\nr8 = C(v=4).m(k=5)\n")
+  return out
+
+
+def _kw_src_worker(src):
+  common.load_pytype()
+  install_kw_trace()
+  del KW_TRACE[:]
+  from pytype import config, io  # pylint: disable=g-import-not-at-top
+  try:
+    io.generate_pyi(src, config.Options.create(python_version=(3, 12)))
+  except Exception as e:  # pylint: disable=broad-except
+    return [("x", repr(e)[:200])]
+  return list(KW_TRACE)
+
+
 def _k2_worker(items):
   common.load_pytype()
+  install_kw_trace()
+  del KW_TRACE[:]
   t = time.time()
   out, anomalies, src = run_pytype_module(items)
-  return out, anomalies, time.time() - t
+  return out, anomalies, time.time() - t, list(KW_TRACE)
 
 
 def model_outputs(drv, items):
@@ -724,7 +830,14 @@ def k2(res, rng, tier, drv, n_modules):
   distinct = set()
   samples = []
   fi = 0
-  for mi, (items, (out, anomalies, _)) in enumerate(zip(modules, outs)):
+  with multiprocessing.get_context("fork").Pool(min(NPROC, 4)) as pool:
+    extra = pool.map(_kw_src_worker, kw_extra_sources(), chunksize=1)
+  for t in extra:
+    if t and t[0][0] == "x":
+      dis.append({"stage": "K3-kw-register", "what": "analysis of a keyword-call family module raised " + t[0][1]})
+  dis += kw_trace_check(drv, [o[3] for o in outs] + [t for t in extra if not (t and t[0][0] == "x")], res)
+  res.cov["kw_register"]["family_modules"] = len(extra)
+  for mi, (items, (out, anomalies, _, _)) in enumerate(zip(modules, outs)):
     for a in anomalies:
       dis.append({"stage": "K2", "what": a, "module": mi, "items": items if len(dis) < 3 else None})
     for ii, it in enumerate(items):
@@ -888,6 +1001,27 @@ def search(res, rng, disagreements, pfail):
   # the region of the known finding is represented by its listed witnesses (W), not searched
   cases = [c for c in cases if not in_known_region(c[0], c[1])]
   found = []
+  if any(d.get("stage") == "K3-kw-register" for d in disagreements):
+    # the keyword-call family modules run under CPython without a TypeError; a binding error reported by pytype on
+    # one of them is a call that was not bound as CPython binds it
+    from pytype import config, io  # pylint: disable=g-import-not-at-top
+    for src in kw_extra_sources():
+      try:
+        exec(compile(src, "<kw-family>", "exec"), {})  # pylint: disable=exec-used
+        cp = "runs"
+      except TypeError as e:
+        cp = "TypeError: %s" % e
+      except Exception:  # pylint: disable=broad-except
+        cp = "runs"    # AttributeError etc. of the C14 statements: not about binding
+      try:
+        ret, _ = io.generate_pyi(src, config.Options.create(python_version=(3, 12)))
+        errs = [(e.name, e.line, str(e.message)[:160]) for e in ret.context.errorlog if e.name in PY_ERR]
+      except Exception as e:  # pylint: disable=broad-except
+        errs = [("exception", 0, repr(e)[:200])]
+      if errs and cp == "runs":
+        found.append({"program": src, "cpython": cp, "pytype": errs[:4],
+                      "text": "keyword-call family module: pytype reports a binding error CPython does not raise"})
+        break
   for i in range(0, len(cases), 50):
     if time.time() - t0 > 120 or found:
       break
